@@ -4,6 +4,7 @@ import (
 	"fmt"
 	"math/rand"
 	"strings"
+	"unicode"
 
 	"github.com/grindlemire/go-lucene/verif/core"
 	"github.com/grindlemire/go-lucene/verif/gen"
@@ -34,9 +35,13 @@ func newC06Plan(tier string) *c06Plan {
 	return p
 }
 
+// c06RuneBatches: every code point of the BMP that is neither letter nor digit (and a stride
+// sample of the astral ones) where an operator could stand.
+const c06RuneBatches = 4
+
 func (c06) Batches(tier string, seed int64) int {
 	p := newC06Plan(tier)
-	return p.total() + p.nRandSeq + p.nEdit
+	return p.total() + p.nRandSeq + p.nEdit + c06RuneBatches
 }
 
 func (c06) RunBatch(ctx *core.Ctx, batch int) {
@@ -60,6 +65,27 @@ func (c06) RunBatch(ctx *core.Ctx, batch int) {
 			}
 			in := strings.Join(parts, " ")
 			ctx.Case(in, func() { c06Check(ctx, "randseq", in) })
+		}
+	case batch >= p.total()+p.nRandSeq+p.nEdit:
+		k := batch - (p.total() + p.nRandSeq + p.nEdit)
+		n := 0
+		for r := rune(0x80); r < 0x110000; r++ {
+			if r >= 0x10000 && r%37 != 0 {
+				continue
+			}
+			if (r >= 0xd800 && r < 0xe000) || unicode.IsLetter(r) || unicode.IsDigit(r) {
+				continue
+			}
+			n++
+			if n%c06RuneBatches != k {
+				continue
+			}
+			c := string(r)
+			ctx.Count("non_token_code_points", 1)
+			for _, in := range []string{"a" + c + "b", c + "a OR b" + c, "a " + c + " b", "f:" + c + "1 TO 2" + c, "a" + c + c + "5"} {
+				in := in
+				ctx.Case(in, func() { c06Check(ctx, "rune", in) })
+			}
 		}
 	default:
 		// one-edit neighbours of printed trees
@@ -140,6 +166,20 @@ func c06Check(ctx *core.Ctx, kind, in string) {
 			ctx.Violate("c06:accepted-with-lex-error", "Parse(%q) succeeds although the token stream ends in an error", in)
 			continue
 		}
+		// the token sequence the tree is laid over is the input's: each token the lexer reports
+		// must be the kind of token its own text is (an exotic character reported as ':' would
+		// give the tree an operator that nobody typed)
+		badTok := false
+		for i, t := range toks {
+			if k, isTok := oracle.KindOfText(t.Val); !isTok || k != t.Typ {
+				ctx.Violate("c06:token-kind-not-in-text:"+t.Typ.String(), "Parse(%q) succeeds with token %d reported as %v, but its text %q is not such a token", in, i, t.Typ, t.Val)
+				badTok = true
+				break
+			}
+		}
+		if badTok {
+			continue
+		}
 		if len(toks) > 80 {
 			ctx.Count("skipped_too_long", 1)
 			continue
@@ -162,7 +202,7 @@ func (c06) Finish(res *core.Result, cov map[string]any) []string {
 	reasons := []string{}
 	cov["distinct_nontrivial"] = res.NDistinct("nontrivial")
 	cov["exhaustive"] = true
-	cov["rule"] = "token sequences up to length L over three alphabets (exhaustive: answers 'is any non-query accepted' completely up to L), random sequences of up to 40 fragments, one-token edits of printed trees and fuzzed inputs, with and without a default field. For every accepted input a memoised recogniser checks that the returned tree can be laid over the real lexer's token sequence as a derivation in the documented grammar with each term's typed value. Non-trivial = distinct accepted token-type sequence."
+	cov["rule"] = "token sequences up to length L over three alphabets (exhaustive: answers 'is any non-query accepted' completely up to L), random sequences of up to 40 fragments, one-token edits of printed trees, fuzzed inputs, and every non-alphanumeric code point of the BMP (plus a stride sample of the astral planes) in the positions of ':', brackets and operators, with and without a default field. For every accepted input each reported token must be the kind of token its text is, and a memoised recogniser checks that the returned tree can be laid over the real lexer's token sequence as a derivation in the documented grammar with each term's typed value. Non-trivial = distinct accepted token-type sequence."
 	floor(res.Counters["derivations_confirmed"] >= 1000, &reasons, "derivations confirmed %d", res.Counters["derivations_confirmed"])
 	floor(res.Counters["skipped_too_long"]*50 <= res.Counters["accepted"], &reasons, "skipped %d of %d accepted", res.Counters["skipped_too_long"], res.Counters["accepted"])
 	reducersAllFired(res, &reasons)
